@@ -3,6 +3,7 @@ CONSTANTS
   RingBits = 2
   Mode = "three"
   Sample = TRUE
+  Runs = 40
 SPECIFICATION MacroSpec
 INVARIANT C02Three
 CHECK_DEADLOCK FALSE
